@@ -16,7 +16,7 @@ RULE = (
     "x key configuration (4 KDF hashes x {nonce, DH RFC5114, ECDH_P256, ECDH_P384}) x clock {mid-interval, first/last tick of an L2, L1, L0 interval} (quick: 4) x layout {in-envelope, trailing} x API {sync, async}. "
     "nonce mode: offline KeyCache with the root key, or seed keys fetched from the reference DC (whose envelope at L2'=31 carries / omits the L2 key); public-key mode: protect through the reference DC answering 'not authorised' (group public key only), unprotect with the offline cache. trailing layout: "
     "DPAPINGBlob.unpack(blob).pack(blob_in_envelope=False) fed back to unprotect. Oracle: unprotect(protect(x)) == x and the independent reference decryptor opens the same blob from the root key alone and the blob names the interval of the virtual clock. "
-    "Nonce-mode cells are additionally run twice in a row on one KeyCache shared along the whole shard (cache history x clock x SID). Every cell is distinct by construction; non-trivial = all (each runs protect, two unprotects and the reference decryptor)."
+    "Nonce-mode cells are additionally run twice in a row on one KeyCache shared along the whole shard (cache history x clock x SID). DC-seeded modes additionally run every ordered pair of 10 clock positions on a fresh cache that only holds what the DC returned. Every cell is distinct by construction; non-trivial = all (each runs protect, two unprotects and the reference decryptor)."
 )
 ASSUME = ["ref/cms.py + ref/gkdi.py calibrated on the 16 Windows vectors", "clock seam time.time_ns; DC with scripted security context for the public-key configurations"]
 BOUND = {"quick": "8 lengths x 4 SID shapes x 24 configs x 4 clocks x 2 layouts x 2 APIs", "thorough": "21 lengths x 45 SID shapes x 24 configs x 7 clocks x 2 x 2 (SID shapes cycled over the other dimensions for DH)"}
@@ -51,7 +51,10 @@ def _ctx(u, p, **kw):
     return secctx.ScriptedContext([b"C1"], 16)
 
 
-def roundtrip(rk: gkdi.RootKey, mode: str, sid: str, pt: bytes, ft: int, api: str, cache=None):
+WALK = [(6, 0), (5, 31), (5, 7), (4, 31), (4, 3), (6, 5), (3, 0), (31, 31), (0, 0), (30, 31)]
+
+
+def roundtrip(rk: gkdi.RootKey, mode: str, sid: str, pt: bytes, ft: int, api: str, cache=None, seed_cache=None):
     """-> (violation or None, blob)"""
     import dpapi_ng
     from dpapi_ng._blob import DPAPINGBlob
@@ -68,7 +71,13 @@ def roundtrip(rk: gkdi.RootKey, mode: str, sid: str, pt: bytes, ft: int, api: st
                 dc = refdc.DC([rk], now=gkdi.interval(ft))
                 dc.l2_at_31 = mode == "nonce-dc"
                 with transport.network(dc), secctx.scripted_client(_ctx):
-                    blob = bytes(run(prot(pt, sid, server="dc", username="u", password="p", auth_protocol="ntlm")))
+                    if seed_cache is not None:  # a cache that only ever holds what the DC returned, kept between calls
+                        blob = bytes(run(prot(pt, sid, root_key_identifier=rk.rkid, cache=seed_cache, server="dc", username="u", password="p", auth_protocol="ntlm")))
+                        via = bytes(run(unprot(blob, cache=seed_cache, server="dc", username="u", password="p", auth_protocol="ntlm")))
+                        if via != pt:
+                            return ("seed-cache.roundtrip.differs", {"len": len(pt), "got_len": len(via)}), blob
+                    else:
+                        blob = bytes(run(prot(pt, sid, server="dc", username="u", password="p", auth_protocol="ntlm")))
             else:
                 dc = refdc.DC([rk], now=gkdi.interval(ft), authorised=False)
                 with transport.network(dc), secctx.scripted_client(_ctx):
@@ -163,6 +172,24 @@ def run_shard(shard, tier, seed, acc) -> None:
                 else:
                     acc.outcome("roundtrip-ok-shared-cache")
             hist.append([ln, sid, ft, api])
+    if m.startswith("nonce-dc") and part == 0:
+        # every ordered pair of 10 clock positions (adjacent L1 intervals, L2 = 31, interval ends) on a fresh seed-only cache: the second
+        # call is served from what the first one fetched whenever that covers it (a client clock behind the DC's, or moving backwards)
+        import dpapi_ng
+
+        sid = sid_shapes("quick")[1]
+        for a, b2 in itertools.permutations(WALK, 2):
+            sc = dpapi_ng.KeyCache()
+            for pos in (a, b2):
+                ft = (L0 * 1024 + pos[0] * 32 + pos[1]) * B + 4242
+                api = "sync" if (a[0] + b2[1]) % 2 == 0 else "async"
+                v, _ = roundtrip(rk, m, sid, plaintext(seed, 33), ft, api, seed_cache=sc)
+                n += 1
+                if v:
+                    acc.violate("seed-cache." + v[0], ["walk", h, m, list(a), list(b2), api], {**v[1], "failed_at": list(pos)}, size=sum(a) + sum(b2))
+                    acc.outcome("violation")
+                else:
+                    acc.outcome("roundtrip-ok-seed-cache")
     acc.ev(n)
     acc.nt_counted(n)
     acc.sample({"hash": h, "mode": m, "plaintext_len": ln, "sid": sid, "filetime": ft, "api": api})
@@ -170,6 +197,18 @@ def run_shard(shard, tier, seed, acc) -> None:
 
 def replay(case, seed, acc) -> None:
     seams.block_network()
+    if case[0] == "walk":
+        import dpapi_ng
+
+        _, h, m, a, b2, api = case
+        rk = mk_root(seed, h, m)
+        sc = dpapi_ng.KeyCache()
+        acc.ev()
+        for pos in (a, b2):
+            v, _ = roundtrip(rk, m, sid_shapes("quick")[1], plaintext(seed, 33), (L0 * 1024 + pos[0] * 32 + pos[1]) * B + 4242, api, seed_cache=sc)
+            if v:
+                acc.violate("seed-cache." + v[0], case, {**v[1], "failed_at": list(pos)})
+        return
     _, h, m, ln, sid, ft, api = case
     acc.ev()
     v, _ = roundtrip(mk_root(seed, h, m), m, sid, plaintext(seed, ln), ft, api)
